@@ -471,7 +471,7 @@ impl<'a> GeneratorState<'a> {
                         .syntax_error("Sizeof only works on variables and simple types", pos))
                 }
             }
-            Expr::Identifier(var, _) => {
+            Expr::Identifier(var, sub) => {
                 // X and Y (and unknown names) are not in the variables table
                 let v = match self.compiler_state.variables.get(var) {
                     Some(v) => v,
@@ -481,6 +481,18 @@ impl<'a> GeneratorState<'a> {
                             .syntax_error(&format!("Unknown identifier {}", var), pos))
                     }
                 };
+                // With a subscript it is the size of one element
+                if !matches!(**sub, Expr::Nothing) {
+                    return match v.var_type {
+                        VariableType::CharPtr => Ok(ExprType::Immediate(1)),
+                        VariableType::ShortPtr | VariableType::CharPtrPtr => {
+                            Ok(ExprType::Immediate(2))
+                        }
+                        _ => Err(self
+                            .compiler_state
+                            .syntax_error("Sizeof only works on variables and simple types", pos)),
+                    };
+                }
                 match v.var_type {
                     VariableType::CharPtr => {
                         if v.var_const {
